@@ -261,6 +261,8 @@ class World(object):
                 tok = args[0] if len(args) == 1 and isinstance(args[0], Token) else None
                 ok = tok is not None and set(kwargs.keys()) == {'k'} and kwargs['k'] is tok
                 arg = [0, tok.n if ok else 999]
+            if model_of_call is not None:
+                model = model_of_call
             if model is None:
                 model = world.current_model
             mid = world.model_ids.get(id(model), 99)
@@ -279,18 +281,30 @@ class Model(object):
     pass
 
 
-def build_machine(case, world, cls=None, model=None, extra_kwargs=None):
+def build_machine(case, world, cls=None, model=None, extra_kwargs=None, models=None):
+    """models: optional list of model objects; then callbacks are given by NAME and every model object gets
+    one recording attribute per (slot, callback) that knows which model it belongs to"""
     tr = _import_transitions()
     m = case['machine']
     if cls is None:
         cls = tr.Machine
-    R = world.recorder
+    if models is not None:
+        def R(slot, cb):
+            name = 'cb_%s_%d' % (slot, cb)
+            for mod in models:
+                if not hasattr(mod, name):
+                    setattr(mod, name, world.recorder(slot, cb, mod))
+            return name
+    else:
+        R = world.recorder
     states = []
     for s, d in m['states']:
         states.append(dict(name='s%d' % s, on_enter=[R('enter', c) for c in d['enter']],
                            on_exit=[R('exit', c) for c in d['exit']],
                            ignore_invalid_triggers=d['ignore'], final=d['final']))
     model = model if model is not None else Model()
+    if models is not None:
+        model = models
     kw = dict(model=model, states=states, initial='s%d' % case['init'], auto_transitions=False,
               send_event=m['send'], ignore_invalid_triggers=m['ignore'],
               prepare_event=[R('prepare_event', c) for c in m['prepare_event']],
